@@ -147,6 +147,22 @@ def zorg(zdir: Path, *args: str, config: Optional[Path] = None,
     return CmdResult(code, buf.getvalue(), exc)
 
 
+def zorg_subprocess(zdir: Path, *args: str, day: str, config: Optional[Path] = None,
+                    crash_at: Optional[int] = None, torn: bool = False, timeout: float = 120.0) -> CmdResult:
+    """Run one zorg command in a REAL fresh process (clock frozen to `day` inside it)."""
+    import subprocess
+
+    repo_src = os.path.join(os.environ.get("VERIF_REPO", "/repo"), "src")
+    verif = str(Path(__file__).resolve().parent.parent)
+    cmd = [sys.executable, "-m", "vz.subproc_main", repo_src, day]
+    if crash_at is not None:
+        cmd += ["--crash-at", str(crash_at)] + (["--torn"] if torn else [])
+    cmd += ["--", "--log=null"] + ([f"-c{config}"] if config else []) + [f"--dir={zdir}"] + [str(a) for a in args]
+    envv = dict(os.environ, PYTHONPATH=verif + os.pathsep + repo_src, PYTHONHASHSEED="0")
+    p = subprocess.run(cmd, stdout=subprocess.PIPE, stderr=subprocess.DEVNULL, env=envv, timeout=timeout, cwd=verif)
+    return CmdResult(p.returncode, p.stdout.decode("utf-8", "replace"))
+
+
 @contextlib.contextmanager
 def frozen(day: str, hhmm: str = "12:00"):
     """Freeze zorg's clock to ``day`` (YYYY-MM-DD).  Use inside a case only."""
